@@ -14,10 +14,14 @@ type selCand struct {
 }
 
 func findSelCands(t *Term, q *Term, out *[]selCand) {
-	if !t.Bound || t.Binder != "" {
+	if !t.Bound {
 		return
 	}
-	if t.Op == "select" && len(t.Args) == 2 && !mentions(t.Args[0], q.Op) {
+	if t.Binder != "" {
+		findSelCands(t.Args[0], q, out)
+		return
+	}
+	if t.Op == "select" && len(t.Args) == 2 && !t.Args[0].Bound {
 		idx := t.Args[1]
 		if idx.Op == "bvadd" && len(idx.Args) == 2 {
 			a, b := idx.Args[0], idx.Args[1]
@@ -41,7 +45,13 @@ func rebase(t *Term, q *Term, base *Term, baseStr string) *Term {
 		return t
 	}
 	if t.Binder != "" {
-		return t
+		nt := *t
+		nt.Args = []*Term{rebase(t.Args[0], q, base, baseStr)}
+		nt.Pats = nil
+		for _, p := range t.Pats {
+			nt.Pats = append(nt.Pats, rebase(p, q, base, baseStr))
+		}
+		return &nt
 	}
 	if t.Op == "bvadd" && len(t.Args) == 2 {
 		a, b := t.Args[0], t.Args[1]
@@ -79,9 +89,6 @@ func reindexQuant(vars []*Term, body *Term) (*Term, []*Term, bool) {
 	}
 	q := vars[0]
 	if !q.Sort.IsBV() {
-		return nil, nil, false
-	}
-	if containsQuant(body) {
 		return nil, nil, false
 	}
 	var cands []selCand
